@@ -764,6 +764,167 @@ fn t17_large_domain() {
     finish("t17_large_domain", cases, bad);
 }
 
+// ---- C07: gates ----
+fn gate_battery<G: crate::gates::gate::Gate<F, D>>(tag: &str, mk: impl Fn() -> G, config: &CircuitConfig, bad: &mut Vec<String>, cases: &mut usize) {
+    use crate::field::types::Sample;
+    use crate::iop::generator::generate_partial_witness;
+    use crate::iop::wire::Wire;
+    use crate::iop::witness::Witness;
+    use crate::plonk::vars::{EvaluationTargets, EvaluationVars, EvaluationVarsBaseBatch};
+    let gate = mk();
+    let (nw, nc, ncons) = (gate.num_wires(), gate.num_constants(), gate.num_constraints());
+    let pih = HashOut::<F>::rand();
+    // (1) extension evaluator vs base/packed batch evaluator on a batch of 5 rows (random and boundary values), declared count
+    let batch = 5usize;
+    let lat = [F::ZERO, F::ONE, F::NEG_ONE, F::from_canonical_u64(0xFFFF_FFFF), F::from_canonical_u64(1 << 32)];
+    let rows_w: Vec<Vec<F>> = (0..batch).map(|b| (0..nw).map(|k| if b == 0 { lat[k % 5] } else { F::rand() }).collect()).collect();
+    let rows_c: Vec<Vec<F>> = (0..batch).map(|b| (0..nc).map(|k| if b == 0 { lat[(k + 2) % 5] } else { F::rand() }).collect()).collect();
+    let flat_w: Vec<F> = (0..nw).flat_map(|k| (0..batch).map(|b| rows_w[b][k]).collect::<Vec<_>>()).collect();
+    let flat_c: Vec<F> = (0..nc).flat_map(|k| (0..batch).map(|b| rows_c[b][k]).collect::<Vec<_>>()).collect();
+    *cases += 1;
+    let base = catch_unwind(AssertUnwindSafe(|| gate.eval_unfiltered_base_batch(EvaluationVarsBaseBatch::new(batch, &flat_c, &flat_w, &pih))));
+    match base {
+        Err(_) => bad.push(format!("{tag}: eval_unfiltered_base_batch PANICKED")),
+        Ok(base) => {
+            if base.len() != batch * ncons { bad.push(format!("{tag}: base evaluator returned {} values for a batch of {batch}, gate declares {ncons} constraints", base.len())); }
+            for b in 0..batch {
+                let w: Vec<FE> = rows_w[b].iter().map(|&x| x.into()).collect();
+                let c: Vec<FE> = rows_c[b].iter().map(|&x| x.into()).collect();
+                let ext = gate.eval_unfiltered(EvaluationVars { local_constants: &c, local_wires: &w, public_inputs_hash: &pih });
+                *cases += 1;
+                if ext.len() != ncons { bad.push(format!("{tag}: eval_unfiltered returned {} constraints, gate declares {ncons}", ext.len())); break; }
+                if base.len() == batch * ncons && (0..ncons).any(|j| ext[j] != base[j * batch + b].into()) { bad.push(format!("{tag}: base/packed evaluator disagrees with the extension evaluator on batch row {b}")); break; }
+            }
+        }
+    }
+    // (2) in-circuit evaluators (unfiltered and filtered with 1 and 2 selectors) vs native, through witness generation only
+    {
+        let w = FE::rand_vec(nw);
+        for num_selectors in [0usize, 1, 2] {
+            let c = FE::rand_vec(num_selectors + nc);
+            let native = if num_selectors == 0 { gate.eval_unfiltered(EvaluationVars { local_constants: &c, local_wires: &w, public_inputs_hash: &pih }) }
+                else { gate.eval_filtered(EvaluationVars { local_constants: &c, local_wires: &w, public_inputs_hash: &pih }, 1, 0, 0..3, num_selectors, 0) };
+            *cases += 1;
+            let r = catch_unwind(AssertUnwindSafe(|| -> anyhow::Result<Vec<FE>> {
+                let mut pw = PartialWitness::new();
+                let mut builder = CircuitBuilder::<F, D>::new(config.clone());
+                let wt = builder.add_virtual_extension_targets(nw);
+                let ct = builder.add_virtual_extension_targets(c.len());
+                pw.set_extension_targets(&wt, &w)?;
+                pw.set_extension_targets(&ct, &c)?;
+                let ht = builder.add_virtual_hash();
+                pw.set_hash_target(ht, pih)?;
+                let vt = EvaluationTargets { local_constants: &ct, local_wires: &wt, public_inputs_hash: &ht };
+                let out = if num_selectors == 0 { gate.eval_unfiltered_circuit(&mut builder, vt) } else {
+                    let mut combined = vec![builder.zero_extension(); ncons];
+                    gate.eval_filtered_circuit(&mut builder, vt, 1, 0, 0..3, num_selectors, 0, &mut combined);
+                    combined
+                };
+                let data = builder.build_prover::<PC>();
+                let wit = generate_partial_witness(pw, &data.prover_only, &data.common)?;
+                Ok(out.iter().map(|&t| wit.get_extension_target(t)).collect())
+            }));
+            match r {
+                Ok(Ok(v)) => { if v.len() != native.len() { bad.push(format!("{tag}: in-circuit evaluator ({num_selectors} selectors) returns {} constraints, native {}", v.len(), native.len())); }
+                               else if let Some(j) = (0..v.len()).find(|&j| v[j] != native[j]) { bad.push(format!("{tag}: in-circuit evaluator ({num_selectors} selectors) disagrees with the native one at constraint {j}")); } }
+                Ok(Err(e)) => bad.push(format!("{tag}: in-circuit evaluation ({num_selectors} selectors) failed: {e}")),
+                Err(_) => bad.push(format!("{tag}: in-circuit evaluation ({num_selectors} selectors) PANICKED")),
+            }
+        }
+    }
+    // (3) generator completeness and pinning: wires a generator writes are found by conflict (preset everything, drop what a generator overwrites)
+    for mode in 0..3 {
+        let consts: Vec<F> = (0..nc).map(|k| if mode != 1 { F::from_canonical_u64((k as u64 * 5 + 3) % 7) } else { F::rand() }).collect();
+        let mut builder = CircuitBuilder::<F, D>::new(config.clone());
+        let row = builder.add_gate(mk(), consts.clone());
+        let data = match catch_unwind(AssertUnwindSafe(|| builder.build_prover::<PC>())) { Ok(d) => d, Err(_) => { continue; } };
+        // mode 0: every wire in {0,1}; mode 1: every wire random; mode 2: wire 0 random, the others in {0,1}
+        let vals: Vec<F> = (0..nw).map(|k| if mode == 0 || (mode == 2 && k != 0) { F::from_canonical_u64(((k * 7 + 1) % 3 % 2) as u64) } else { F::rand() }).collect();
+        let mut preset: Vec<bool> = vec![true; nw];
+        let mut result = None;
+        for _ in 0..=nw {
+            let mut pw = PartialWitness::new();
+            for k in 0..nw { if preset[k] { pw.set_wire(Wire { row, column: k }, vals[k]).unwrap(); } }
+            match catch_unwind(AssertUnwindSafe(|| generate_partial_witness(pw, &data.prover_only, &data.common))) {
+                Ok(Ok(wit)) => { result = Some((0..nw).map(|k| wit.try_get_wire(Wire { row, column: k })).collect::<Vec<_>>()); break; }
+                Ok(Err(e)) => {
+                    let msg = format!("{e}");
+                    // "Partition containing Wire { row: R, column: C } was set twice with different values"
+                    let col = msg.split("column: ").nth(1).and_then(|t| t.split(|ch: char| !ch.is_ascii_digit()).next()).and_then(|t| t.parse::<usize>().ok());
+                    match col { Some(cidx) if cidx < nw && preset[cidx] => { preset[cidx] = false; } _ => { break; } }
+                }
+                Err(_) => { break; }
+            }
+        }
+        let Some(row_vals) = result else { continue; };
+        if row_vals.iter().any(|v| v.is_none()) { continue; }
+        let mut rowv: Vec<F> = row_vals.into_iter().map(|v| v.unwrap()).collect();
+        let generated: Vec<usize> = (0..nw).filter(|&k| !preset[k]).collect();
+        if generated.is_empty() { continue; }
+        // the builder may reuse free constant slots of the row, so read the row's constants back from the built circuit
+        let nsel = data.common.selectors_info.num_selectors();
+        let x_row = data.prover_only.subgroup[row];
+        let cext: Vec<FE> = (0..nc).map(|k| data.prover_only.constants_sigmas_commitment.polynomials[nsel + k].eval(x_row).into()).collect();
+        // unused constant slots of the row have no generator: a prover fills the wire with the slot's constant
+        for (ci, wi) in gate.extra_constant_wires() { if preset[wi] { rowv[wi] = data.prover_only.constants_sigmas_commitment.polynomials[nsel + ci].eval(x_row); } }
+        let eval = |r: &[F]| { let w: Vec<FE> = r.iter().map(|&x| x.into()).collect(); gate.eval_unfiltered(EvaluationVars { local_constants: &cext, local_wires: &w, public_inputs_hash: &pih }) };
+        *cases += 1;
+        let honest = eval(&rowv);
+        if honest.iter().any(|c| !c.is_zero()) {
+            // inputs outside the gate's domain (e.g. non-bits, too large a sum): only mode 0 (small 0/1 inputs) must be satisfiable
+            if mode == 0 { bad.push(format!("{tag}: row filled by the gate's own generators (inputs in {{0,1}}) violates constraint {}", honest.iter().position(|c| !c.is_zero()).unwrap())); }
+            continue;
+        }
+        for &k in &generated { for delta in [F::ONE, F::NEG_ONE, F::from_canonical_u64(12345)] {
+            let mut t = rowv.clone(); t[k] += delta; *cases += 1;
+            if eval(&t).iter().all(|c| c.is_zero()) { bad.push(format!("{tag}: generator-written wire {k} can be changed by {} without violating any constraint (mode {mode})", delta.to_canonical_u64())); break; }
+        } }
+    }
+}
+
+#[test]
+fn c07_gates() {
+    use crate::gates::arithmetic_base::ArithmeticGate;
+    use crate::gates::arithmetic_extension::ArithmeticExtensionGate;
+    use crate::gates::base_sum::BaseSumGate;
+    use crate::gates::constant::ConstantGate;
+    use crate::gates::coset_interpolation::CosetInterpolationGate;
+    use crate::gates::exponentiation::ExponentiationGate;
+    use crate::gates::multiplication_extension::MulExtensionGate;
+    use crate::gates::poseidon::PoseidonGate;
+    use crate::gates::poseidon_mds::PoseidonMdsGate;
+    use crate::gates::public_input::PublicInputGate;
+    use crate::gates::random_access::RandomAccessGate;
+    use crate::gates::reducing::ReducingGate;
+    use crate::gates::reducing_extension::ReducingExtensionGate;
+    let mut bad = Vec::new();
+    let mut cases = 0usize;
+    let std_cfg = CircuitConfig::standard_recursion_config();
+    let mut narrow = CircuitConfig::standard_recursion_config();
+    narrow.num_routed_wires = 37;
+    for (ctag, cfg) in [("std", &std_cfg), ("narrow37", &narrow)] {
+        gate_battery(&format!("{ctag} ArithmeticGate"), || ArithmeticGate::new_from_config(cfg), cfg, &mut bad, &mut cases);
+        gate_battery(&format!("{ctag} ArithmeticGate(1)"), || ArithmeticGate { num_ops: 1 }, cfg, &mut bad, &mut cases);
+        gate_battery(&format!("{ctag} ArithmeticExtensionGate"), || ArithmeticExtensionGate::<D>::new_from_config(cfg), cfg, &mut bad, &mut cases);
+        gate_battery(&format!("{ctag} MulExtensionGate"), || MulExtensionGate::<D>::new_from_config(cfg), cfg, &mut bad, &mut cases);
+        gate_battery(&format!("{ctag} BaseSumGate<2>(5)"), || BaseSumGate::<2>::new(5), cfg, &mut bad, &mut cases);
+        gate_battery(&format!("{ctag} BaseSumGate<2>(1)"), || BaseSumGate::<2>::new(1), cfg, &mut bad, &mut cases);
+        gate_battery(&format!("{ctag} BaseSumGate<4>(3)"), || BaseSumGate::<4>::new(3), cfg, &mut bad, &mut cases);
+        gate_battery(&format!("{ctag} ConstantGate(2)"), || ConstantGate::new(2), cfg, &mut bad, &mut cases);
+        gate_battery(&format!("{ctag} ExponentiationGate(5)"), || ExponentiationGate::<F, D>::new(5), cfg, &mut bad, &mut cases);
+        gate_battery(&format!("{ctag} ExponentiationGate(1)"), || ExponentiationGate::<F, D>::new(1), cfg, &mut bad, &mut cases);
+        gate_battery(&format!("{ctag} PoseidonGate"), || PoseidonGate::<F, D>::new(), cfg, &mut bad, &mut cases);
+        gate_battery(&format!("{ctag} PoseidonMdsGate"), || PoseidonMdsGate::<F, D>::new(), cfg, &mut bad, &mut cases);
+        gate_battery(&format!("{ctag} PublicInputGate"), || PublicInputGate, cfg, &mut bad, &mut cases);
+        gate_battery(&format!("{ctag} RandomAccessGate(2)"), || RandomAccessGate::<F, D>::new_from_config(cfg, 2), cfg, &mut bad, &mut cases);
+        gate_battery(&format!("{ctag} RandomAccessGate(1)"), || RandomAccessGate::<F, D>::new_from_config(cfg, 1), cfg, &mut bad, &mut cases);
+        gate_battery(&format!("{ctag} ReducingGate(5)"), || ReducingGate::<D>::new(5), cfg, &mut bad, &mut cases);
+        gate_battery(&format!("{ctag} ReducingExtensionGate(3)"), || ReducingExtensionGate::<D>::new(3), cfg, &mut bad, &mut cases);
+        gate_battery(&format!("{ctag} CosetInterpolationGate(2)"), || CosetInterpolationGate::<F, D>::new(2), cfg, &mut bad, &mut cases);
+    }
+    finish("c07_gates", cases, bad);
+}
+
 // C13: optimised Poseidon == naive Poseidon on boundary states (incl. non-canonical representations); sponge chunking
 #[test]
 fn c13_poseidon_and_sponge() {
